@@ -235,7 +235,7 @@ TDedup ==
   /\ UNCHANGED <<cfg, submitted, subInfo, outcome, okAt, chosen, log, wire, bstate, icount, phase>>
 
 TOther ==
-  /\ E.ev \in {"meta", "move", "reply", "drop", "gate", "sync_mismatch", "gate_timeout", "unsteered", "skip", "sim_error"}
+  /\ E.ev \in {"meta", "move", "reply", "drop", "gate", "sync_mismatch", "gate_timeout", "unsteered", "skip", "sim_error", "conduct"}
   /\ stats' = CASE E.ev = "unsteered" -> Bump("unsteered")
                 [] E.ev = "skip" -> Bump("skipped")
                 [] E.ev = "gate" -> Bump("gates")
